@@ -382,7 +382,7 @@ func (fr *Frame) bigMethod(b *ssa.BasicBlock, st *State, m string, args []Val, r
 		need(1, 2)
 		fr.ob("div", src+":zero", b, sNot(sEq(v(2), "0")), pos)
 		op := map[string]string{"Mod": "mod", "Div": "div", "Quo": "tdiv", "Rem": "trem"}[m]
-		fr.setBV(st, z, sApp(op, v(1), v(2)))
+		fr.setBV(st, z, fr.divTerm(op, fr.bigOperand(st, arg(1)), fr.bigOperand(st, arg(2))))
 		return ret()
 	case "Lsh":
 		need(1)
@@ -390,7 +390,7 @@ func (fr *Frame) bigMethod(b *ssa.BasicBlock, st *State, m string, args []Val, r
 		return ret()
 	case "Rsh":
 		need(1)
-		fr.setBV(st, z, sApp("div", v(1), fr.pow2(arg(2))))
+		fr.setBV(st, z, fr.divTerm("div", v(1), fr.pow2(arg(2))))
 		return ret()
 	case "Cmp":
 		need(1)
@@ -727,4 +727,24 @@ func (fr *Frame) mulTerm(a, b string) string {
 		fc.decls = append(fc.decls, "(declare-fun mulI (Int Int) Int)")
 	}
 	return sApp("mulI", a, b)
+}
+
+// divTerm: division / remainder by a non-literal divisor is abstracted (uninterpreted function with the range
+// facts of the remainder) unless the contract asks for nonlinear arithmetic
+func (fr *Frame) divTerm(op, a, b string) string {
+	fc := fr.fc
+	if _, ok := numeral(b); ok || fc.nonlinear {
+		return sApp(op, a, b)
+	}
+	fn := op + "I"
+	if !fc.declSet["fun:"+fn] {
+		fc.declSet["fun:"+fn] = true
+		fc.decls = append(fc.decls, fmt.Sprintf("(declare-fun %s (Int Int) Int)", fn))
+	}
+	t := sApp(fn, a, b)
+	if op == "mod" && !reBoundVar.MatchString(t) && !fc.declSet["divfact:"+t] {
+		fc.declSet["divfact:"+t] = true
+		fc.permFact(sImp(sNot(sEq(b, "0")), sAnd(sApp("<=", "0", t), sApp("<", t, sApp("absI", b)))))
+	}
+	return t
 }
